@@ -475,3 +475,121 @@ Definition positions_ok (i : inputs_t) (obs : option (list (option Z))) : bool :
   | _, _ => false
   end.
 """
+
+
+# ------------------------------------------------------------------ shared evaluation of argv cases (C22, C23)
+ARGV_DEFS = COMMON_DEFS + """
+Definition case_t := (inputs_t * option (list (option Z)) * result (list la))%type.
+Definition dom (c : case_t) : bool :=
+  let '((fm, e, fs, vals, app, _), _, _) := c in
+  c22_in_domain fm e fs vals && match app with AppList _ => true | AppStr _ => false end.
+Definition tie_all (c : case_t) : bool :=
+  let '(i, pos, obs) := c in rendered_ok i && positions_ok i pos && res_eqb (in_argv i) obs.
+Definition spec_ok (c : case_t) : bool :=
+  let '((fm, e, fs, vals, app, _), _, obs) := c in
+  match append_args_conv app with
+  | Good a => c22_ok fm e fs vals a obs
+  | Bad _ => match obs with Bad ENoClosingQuote | Bad ENoEscaped => true | _ => false end
+  end.
+(* bit 0: model != implementation; bit 1: implementation != spec; bit 2: outside the domain of C22_partial *)
+Definition code (c : case_t) : nat :=
+  (if tie_all c then 0 else 1) + (if spec_ok c then 0 else 2) + (if dom c then 0 else 4).
+Definition show (r : result (list la)) := match r with Good l => inl (map str_of l) | Bad e => inr e end.
+"""
+
+
+def evaluate_argv(ctx, name, cases, shard=120):
+    """observe every case on the implementation and evaluate model/spec/domain in Coq.
+    Returns (observations, codes); code bits: 1 model!=impl, 2 impl!=spec, 4 outside the domain of C22_partial."""
+    obs = [observe(c) for c in cases]
+    terms = [coqio.pair(enc_inputs(c), enc_positions(c, o), enc_result_argv(o)) for c, o in zip(cases, obs)]
+    codes = coqio.run_case_codes(ctx.scratch, name, IMPORTS, "case_t", terms, "code", extra=ARGV_DEFS, shard=shard)
+    return obs, codes
+
+
+def spec_term(c):
+    app = enc_las(c["append"]) if isinstance(c["append"], list) else \
+        "(match append_args_conv %s with Good a => a | _ => [] end)" % enc_app(c["append"])
+    return "map str_of (spec_argv %s %s %s %s)" % (
+        enc_exe(c["exe"]), coqio.lst([enc_sfield(f) for f in c["fields"]]), enc_vals(c), app)
+
+
+def model_term(c):
+    return ("(match define %s (map to_field %s) with Good fs => inl (map f_pos fs) | Bad e => inr e end, show (in_argv %s))"
+            % (enc_form(c), coqio.lst([enc_sfield(f) for f in c["fields"]]), enc_inputs(c)))
+
+
+def strip_case(c):
+    return {k: c[k] for k in ("form", "exe", "fields", "values", "append")}
+
+
+def fill_expected(ctx, pending, extra=None):
+    """pending: list of (Failure, Gallina term); evaluates all terms in one coqc run and stores them as .expected"""
+    if not pending:
+        return []
+    try:
+        vals = coqio.eval_terms(ctx.scratch, "expected", IMPORTS, [t for _, t in pending], extra=extra or ARGV_DEFS)
+    except Exception as e:  # noqa
+        vals = ["coq evaluation failed: %s" % e] * len(pending)
+    out = []
+    for (f, _), v in zip(pending, vals):
+        f.expected = v
+        out.append(f)
+    return out
+
+
+# CPython shlex vs Base/Shlex.v on the same strings
+SHLEX_ALPHABET = ["a", "b", " ", "'", "x", '"', "\\", "\t", "$", "*", ";", "\n", "é", "\r", "-", "=", "#"]
+SHLEX_DEFS = PRELUDE + """
+Definition lex_eqb (a b : res) : bool :=
+  match a, b with
+  | Ok x, Ok y => list_eqb la_eqb x y
+  | ErrNoClosingQuote, ErrNoClosingQuote | ErrNoEscaped, ErrNoEscaped => true
+  | _, _ => false
+  end.
+Definition shlex_case := (la * res * list la * la)%type.
+(* bit 0: split differs from CPython; bit 1: join differs from CPython (on the tokens CPython produced) *)
+Definition shlex_code (c : shlex_case) : nat :=
+  let '(s, r, toks, joined) := c in
+  (if lex_eqb (split_la s) r then 0 else 1) + (if la_eqb (join toks) joined then 0 else 2).
+"""
+
+
+def gen_shlex_strings(rng, n):
+    out = []
+    for _ in range(n):
+        k = rng.randint(0, 12)
+        out.append("".join(rng.choice(SHLEX_ALPHABET) for _ in range(k)))
+    return out
+
+
+def enc_lex_result(s):
+    try:
+        toks = shlex.split(s)
+        return "(Ok %s)" % enc_las(toks), toks
+    except ValueError as e:
+        if "No closing quotation" in str(e):
+            return "ErrNoClosingQuote", None
+        if "No escaped character" in str(e):
+            return "ErrNoEscaped", None
+        raise
+
+
+def check_shlex(ctx, name, strings, extra_token_lists=()):
+    """Returns (n, bad) where bad = list of (string, cpython_result, code) on which Base/Shlex.v differs from CPython.
+    For every string s: Shlex.split_la s vs shlex.split(s); and Shlex.join vs shlex.join on the tokens (or on [s])."""
+    terms, meta = [], []
+    for s in strings:
+        r, toks = enc_lex_result(s)
+        toks = toks if toks is not None else [s]
+        terms.append(coqio.pair(L(s), r, enc_las(toks), L(shlex.join(toks))))
+        meta.append((s, r))
+    for toks in extra_token_lists:
+        j = shlex.join(toks)
+        r, _ = enc_lex_result(j)
+        terms.append(coqio.pair(L(j), r, enc_las(toks), L(j)))
+        meta.append((j, r))
+    codes = coqio.run_case_codes(ctx.scratch, name, ["Base.Shlex", "Model.Shell"], "shlex_case", terms, "shlex_code",
+                                 extra=SHLEX_DEFS, shard=400)
+    bad = [(meta[i][0], meta[i][1], k) for i, k in enumerate(codes) if k]
+    return len(terms), bad
